@@ -12,6 +12,7 @@ import (
 // c12Extra: rules added after the third independent seeding round.
 func c12Extra(r *core.Run) {
 	p := r.P
+	defer c12R11(r) // round 11: the reply comparison of the liveness probe
 	defer c12R10(r) // round 10: command-error identity, client built from the Redis' configuration
 	// go-redis takes a non-nil error returned by a hook as the command's (or, for a
 	// pipeline, every command's) error: an instrumentation hook has to return nil.
